@@ -18,7 +18,7 @@ def run(prop, tier, seed, here, repo, env, scratch):
     ov = os.path.join(d, "ov.json")
     json.dump({"Replace": {os.path.join(repo, "zz_verif_bounded_test.go"): tf}}, open(ov, "w"))
     e = dict(env, VERIF_SEED=str(seed), VERIF_N=str(200000 if tier == "quick" else 5000000))
-    r = subprocess.run(["bash", "-c", "cd %s && go test -tags verif -overlay %s -vet=off -timeout 600s -count=1 -run '^%s$' -v ." % (repo, ov, tname)],
+    r = subprocess.run(["bash", "-c", "cd %s && go test -tags verif -overlay %s -vet=off -timeout %s -count=1 -run '^%s$' -v ." % (repo, ov, "1200s" if tier == "quick" else "5400s", tname)],
                        env=e, capture_output=True, text=True)
     out = r.stdout + r.stderr
     m = re.search(r"BOUNDED-CASES (\d+)", out)
